@@ -34,6 +34,7 @@ type profile struct {
 	windowPct   int
 	pausePct    int
 	timeoutPct  int
+	wtimeoutPct int // a write timeout only
 	unbindPct   int
 	panicPct    int
 	lateClient  bool
@@ -47,6 +48,9 @@ type profile struct {
 	exactPct    int  // a handler's last response is padded to a buffer-size boundary
 	noTLSRoute  int  // C13: no StartTLS route registered, the default route upgrades (pct)
 	again       int  // C13: a further StartTLS request inside the tunnel (pct)
+	crowdPct    int  // C18: 9..14 connections, most of them offending
+	deepPct     int  // one client pipelines 129..220 requests whose handlers all block
+	stormPct    int  // one client's requests all panic, 33..70 of them
 	embedPct    int  // C01: with a read timeout, a frame whose value is itself a frame, sent in two parts around the deadline
 }
 
@@ -73,12 +77,14 @@ func profileFor(prop, tier string) profile {
 		}
 	case "C03":
 		base.randomMux, base.maxReqs, base.maxConns = true, pick(8, 14), 3
+		base.deepPct = 1
 	case "C04":
 		base.rich, base.richResp, base.maxReqs, base.extraFrames, base.bigPct = false, true, pick(6, 12), 2, 4
 		base.windowPct = 20
 		base.exactPct = 6
 	case "C05":
 		base.exactPct = 8
+		base.wtimeoutPct, base.faults, base.faultBudget = 8, []string{"clock"}, 2
 		base.maxConns, base.minReqs, base.maxReqs = 2, 2, pick(48, 400)
 		base.extraFrames, base.bigPct, base.windowPct, base.pausePct, base.stallPct = 4, 10, 50, 20, 40
 		base.richResp = true
@@ -90,6 +96,7 @@ func profileFor(prop, tier string) profile {
 		base.endings = []string{""}
 		base.unbindPct = 10
 		base.startTLSPct = 15
+		base.deepPct = pick(2, 0) // the thorough tier goes deep anyway
 	case "C07":
 		base.maxConns, base.maxReqs = 4, 6
 		base.faults, base.faultBudget = []string{"reset", "accept", "pause"}, 3
@@ -98,6 +105,7 @@ func profileFor(prop, tier string) profile {
 		base.unbindPct, base.startTLSPct = 25, 15
 		base.onClose = []int{0, 1}
 		base.tlsPct, base.misbehave = 20, true
+		base.stormPct = 2
 	case "C08":
 		base.maxConns, base.maxReqs = pick(5, 8), 5
 		base.endings = []string{"close", "halfclose", "reset", "unbind", "midframe", "garbage", "negative", "", "close"}
@@ -120,10 +128,12 @@ func profileFor(prop, tier string) profile {
 		base.endings = []string{"", "", "close"}
 		base.stallPct, base.longPct = 40, 10
 		base.onClose = []int{0, 1}
+		base.panicPct = 3 // mostly the unbind handler's (x3), on the connection goroutine
 	case "C11":
 		base.maxConns, base.maxReqs = pick(4, 8), pick(6, 24)
 		base.stopPct, base.passiveEnd = 100, true
 		base.stop2Pct = 8 // Stop while Run is still starting up: Run must return all the same
+		base.stormPct = 2
 		base.endings = []string{"", "", "", "midframe-open", "close", "unbind", "halfclose"}
 		base.windowPct, base.pausePct, base.stallPct = 35, 35, 25
 		base.extraFrames, base.bigPct = 2, 10
@@ -148,6 +158,7 @@ func profileFor(prop, tier string) profile {
 		base.tlsPct, base.noTLSRoute, base.again = 12, 25, 20
 	case "C18":
 		base.maxConns, base.maxReqs = pick(5, 8), 4
+		base.crowdPct = 6
 		base.tlsPct, base.misbehave = 100, true
 		base.endings = []string{"", "", "close"}
 	case "C17":
@@ -155,6 +166,7 @@ func profileFor(prop, tier string) profile {
 		base.readyPoll, base.badAddrPct, base.busyPortPct = true, 25, 25
 		base.stopPct, base.tlsPct, base.misbehave = 30, 30, true
 		base.maxConns = 3
+		base.faults, base.faultBudget, base.lateClient = []string{"accept"}, 2, true // Ready stays true: so must the service
 	case "C15":
 		base.maxConns, base.maxReqs = 4, 8
 		base.endings = []string{"", "close", "reset", "unbind", "halfclose", "midframe"}
@@ -259,11 +271,15 @@ func DrawCore(prop, tier string, ch *Chooser, lean bool, s *Sim) *Core {
 	s.WHarness = 1 + ch.Choose(6)
 
 	cfg.LogLevel = []hclog.Level{hclog.Error, hclog.Debug, hclog.Info, hclog.Off}[ch.Choose(4)]
+	cfg.LogJSON = ch.Choose(4) == 3
 	cfg.OnClose = p.onClose[ch.Choose(len(p.onClose))]
 	if ch.Chance(p.timeoutPct) {
 		cfg.ReadTimeout = []time.Duration{50 * time.Millisecond, time.Second, 30 * time.Second}[ch.Choose(3)]
 	}
 	if ch.Chance(p.timeoutPct) {
+		cfg.WriteTimeout = []time.Duration{50 * time.Millisecond, time.Second, 30 * time.Second}[ch.Choose(3)]
+	}
+	if cfg.WriteTimeout == 0 && ch.Chance(p.wtimeoutPct) {
 		cfg.WriteTimeout = []time.Duration{50 * time.Millisecond, time.Second, 30 * time.Second}[ch.Choose(3)]
 	}
 	if p.randomMux {
@@ -343,6 +359,14 @@ func DrawCore(prop, tier string, ch *Chooser, lean bool, s *Sim) *Core {
 	if prop == "C11" || prop == "C12" {
 		nConns = ch.Int(0, p.maxConns)
 	}
+	crowd := cfg.TLSMode > 0 && ch.Chance(p.crowdPct)
+	if crowd {
+		nConns = 9 + ch.Choose(6)
+	}
+	deep, storm := ch.Chance(p.deepPct), ch.Chance(p.stormPct)
+	if (deep || storm) && nConns == 0 {
+		nConns = 1
+	}
 	pos := 0
 	for i := 0; i < nConns; i++ {
 		cl := &Client{Idx: i}
@@ -355,7 +379,12 @@ func DrawCore(prop, tier string, ch *Chooser, lean bool, s *Sim) *Core {
 		ending := p.endings[ch.Choose(len(p.endings))]
 		if cfg.TLSMode > 0 {
 			cl.Flavour = 1
-			if p.misbehave && ch.Choose(2) == 1 {
+			if crowd && i < nConns-1 && ch.Choose(6) != 0 {
+				// a crowd of clients that connect and then say nothing, or stop
+				// half-way through the handshake
+				cl.Behaviour = []string{"silent", "abandon", "silent", "garbage"}[ch.Choose(4)]
+				cl.Flavour, cl.Offending, cl.disturbed = 0, true, true
+			} else if p.misbehave && ch.Choose(2) == 1 {
 				cl.Behaviour = []string{"plaintext", "garbage", "silent", "abandon", "nocert", "wrongca"}[ch.Choose(6)]
 				switch cl.Behaviour {
 				case "plaintext", "garbage", "silent", "abandon":
@@ -401,6 +430,12 @@ func DrawCore(prop, tier string, ch *Chooser, lean bool, s *Sim) *Core {
 				nReq = p.minReqs + ch.Choose(min(p.maxReqs-p.minReqs, 12)+1)
 			}
 		}
+		if i == 0 && deep && nReq > 0 {
+			nReq = 129 + ch.Choose(92)
+		}
+		if i == 0 && storm && nReq > 0 {
+			nReq = 33 + ch.Choose(38)
+		}
 		unbindAt := -1
 		if (ending == "unbind" || (p.unbindPct > 0 && ch.Chance(p.unbindPct))) && nReq+1 > startTLSAt+1 {
 			unbindAt = startTLSAt + 1 + ch.Choose(nReq-startTLSAt)
@@ -440,6 +475,12 @@ func DrawCore(prop, tier string, ch *Chooser, lean bool, s *Sim) *Core {
 			q.BehindUnbind = unbindAt >= 0 && j > unbindAt
 			q.Inline = rec.Op == "unbind" || (rec.Op == "extended" && rec.ExtName == oidStartTLS)
 			c.drawScript(q, p, ch, g)
+			if i == 0 && deep && !q.Inline {
+				q.Script.Stall, q.Script.Panic = 2, false // all in flight together
+			}
+			if i == 0 && storm && rec.Supported() && !q.Inline && !neg {
+				q.Script.Panic, q.Script.Resps = true, nil
+			}
 			if cl.Eager && j < startTLSAt {
 				q.Script.Stall = 1 // still in flight when the upgrade happens
 			}
